@@ -48,6 +48,15 @@ CHECKS.update({
         "DESIGN.md §2 C01",
     ),
 })
+CHECKS.update({
+    "C02": (
+        "exploration",
+        "Hypothesis generated tables/sources/chunk sizes/worker schedules; multiset round-trip oracle + independent nearest-centre assignment + metamorphic variant comparison; harness-owned multiprocessing schedule",
+        "Generated-input search over input length vs chunk size, dtypes, optional columns, all four file/in-memory sources and the random generator, all three patch modes, worker counts and delivery orders (multiprocessing inside yaw is replaced by a shim whose completion order is a Hypothesis-drawn tape; a real-pool subset cross-checks). Oracle: bit-pattern multiset equality in both directions, per patch, after reopening and between two variants.",
+        "shim fidelity to multiprocessing.Pool/Manager/Process semantics; k-means centres taken from the catalog; equidistant objects discarded",
+        "DESIGN.md §2 C02",
+    ),
+})
 NOT_YET = {}
 
 props = [json.loads(l) for l in (VERIF / "properties.jsonl").read_text().splitlines() if l.strip()]
